@@ -153,10 +153,11 @@ Proj(mm, s) ==
 ChangedSlots(ns, nm) == {s \in 1..NS : Proj(nm, ns[s]) # Proj(mem, slots[s])}
 ExpOf(ns, nm) == LET cs == SetToSortSeq(ChangedSlots(ns, nm), <) IN [k \in 1..Len(cs) |-> [slot |-> cs[k], st |-> Proj(nm, ns[cs[k]])]]
 
-\* one step: the call record `rec`, the new world, and the algebraic law the step must satisfy
-Step(rec, w, law) ==
+\* one step: the call record `rec`, the new world w, and the algebraic law Law(w) the step must satisfy
+\* (w is an operator argument so that TLC evaluates the new world once)
+Step(rec, w, Law(_)) ==
   /\ slots' = w.slots /\ mem' = w.mem
-  /\ hist' = Append(hist, rec @@ [exp |-> ExpOf(w.slots, w.mem), law |-> law])
+  /\ hist' = Append(hist, rec @@ [exp |-> ExpOf(w.slots, w.mem), law |-> Law(w)])
 Rec(op, src, dst) == [op |-> op, src |-> src, dst |-> dst, fmt |-> "", ty |-> "", mode |-> "", p |-> <<>>, q |-> <<>>,
                       k |-> 0, v |-> 0, full |-> FALSE, grp |-> <<>>, gci |-> <<>>, noarr |-> FALSE]
 
@@ -198,9 +199,8 @@ Conv ==
        /\ LET S == slots[src] IN
           \E f \in ConvTargets(S), ty \in TypesFor(S) :
             /\ ConvEnabled(S, f, ty)
-            /\ LET w == Install(slots, mem, dst, ConvDesc(S, f, ty)) IN
-               Step([Rec("conv", src, dst) EXCEPT !.fmt = f, !.ty = ty, !.mode = S.fmt], w,
-                    SAbs(w.mem, w.slots[dst]) = SAbs(mem, S) /\ SM(w.slots[dst]) = SM(S) /\ SN(w.slots[dst]) = SN(S))
+            /\ Step([Rec("conv", src, dst) EXCEPT !.fmt = f, !.ty = ty, !.mode = S.fmt], Install(slots, mem, dst, ConvDesc(S, f, ty)),
+                    LAMBDA w : SAbs(w.mem, w.slots[dst]) = SAbs(mem, S) /\ SM(w.slots[dst]) = SM(S) /\ SN(w.slots[dst]) = SN(S))
 
 \* ---- Clone ------------------------------------------------------------------
 Modes == {"shallow", "layout", "weak", "deep", "allocate"}
@@ -221,9 +221,8 @@ Clone ==
        /\ Usable(src) /\ DstOK(src, dst)
        /\ LET S == slots[src] IN
           \E mode \in Modes, ty \in TypesFor(S) :
-            LET w == Install(slots, mem, dst, CloneDesc(S, mode, ty)) IN
-            Step([Rec("clone", src, dst) EXCEPT !.mode = mode, !.ty = ty], w,
-                 mode \in {"shallow", "weak", "deep"} => SAbs(w.mem, w.slots[dst]) = SAbs(mem, S))
+            Step([Rec("clone", src, dst) EXCEPT !.mode = mode, !.ty = ty], Install(slots, mem, dst, CloneDesc(S, mode, ty)),
+                 LAMBDA w : mode \in {"shallow", "weak", "deep"} => SAbs(w.mem, w.slots[dst]) = SAbs(mem, S))
 
 \* ---- Transpose ----------------------------------------------------------------
 \* BCSR arrays (flattened blocks) of scalar matrix D with block pattern BP; csr is the 1x1 case
@@ -239,43 +238,44 @@ Transp ==
   /\ "transp" \in Ops /\ More
   /\ \E src \in 1..NS, dst \in 1..NS :
        /\ Usable(src) /\ DstOK(src, dst) /\ slots[src].fmt \in {"csr", "bcsr", "dense"}
-       /\ LET S == slots[src]
-              w == Install(slots, mem, dst, TranspDesc(S))
-              T == w.slots[dst] IN
-          Step([Rec("transp", src, dst) EXCEPT !.noarr = (BPat(mem, S) = {})], w,
-               /\ SAbs(w.mem, T) = Transpose(SM(S), SN(S), SAbs(mem, S))
-               /\ SM(T) = SN(S) /\ SN(T) = SM(S)
-               /\ Transpose(SM(T), SN(T), SAbs(w.mem, T)) = SAbs(mem, S))
+       /\ LET S == slots[src] IN
+          Step([Rec("transp", src, dst) EXCEPT !.noarr = (BPat(mem, S) = {})], Install(slots, mem, dst, TranspDesc(S)),
+               LAMBDA w : /\ SAbs(w.mem, w.slots[dst]) = Transpose(SM(S), SN(S), SAbs(mem, S))
+                          /\ SM(w.slots[dst]) = SN(S) /\ SN(w.slots[dst]) = SM(S)
+                          /\ Transpose(SN(S), SM(S), SAbs(w.mem, w.slots[dst])) = SAbs(mem, S))
 
 \* ---- Permute (in place) -----------------------------------------------------
 Id(k)  == [i \in 1..k |-> i]
 Rot(k) == [i \in 1..k |-> (i % k) + 1]
 Rev(k) == [i \in 1..k |-> k + 1 - i]
-AllPerms(k) == {p \in [1..k -> 1..k] : IsPerm(p)}
+PermsGen(k) == {p \in [1..k -> 1..k] : IsPerm(p)}
+Perms1 == PermsGen(1)
+Perms2 == PermsGen(2)
+Perms3 == PermsGen(3)      \* constant definitions: evaluated once by TLC
+AllPerms(k) == CASE k = 1 -> Perms1 [] k = 2 -> Perms2 [] k = 3 -> Perms3
 PermPairs(m, n) ==
-  IF PermSel = "all" THEN AllPerms(m) \X AllPerms(n)
+  IF PermSel = "all" /\ m <= 3 /\ n <= 3 THEN AllPerms(m) \X AllPerms(n)
   ELSE {<<Rot(m), Rot(n)>>, <<PermInv(Rot(m)), PermInv(Rot(n))>>, <<Rot(m), Id(n)>>, <<PermInv(Rot(m)), Id(n)>>,
         <<Rev(m), PermInv(Rot(n))>>, <<Rev(m), Rot(n)>>}
 ExpandPerm(p, b) == [i \in 1..(Len(p) * b) |-> (p[((i - 1) \div b) + 1] - 1) * b + ((i - 1) % b) + 1]
 \* row i of the result is row p[i] of the operand, column j of the result is column q[j]
+PermD2(S, p, q) == PermMat(SM(S), SN(S), SAbs(mem, S), ExpandPerm(p, S.bh), ExpandPerm(q, S.bw))
+PermBP2(S, p, q) == {e \in (1..S.m) \X (1..S.n) : <<p[e[1]], q[e[2]]>> \in BPat(mem, S)}
+PermMem(S, arrs) ==
+  IF NoArrays(S) THEN mem
+  ELSE [mem EXCEPT ![S.ix[1]] = [d |-> arrs.ci, def |-> TRUE],
+                   ![S.ix[2]] = [d |-> arrs.rp, def |-> TRUE],
+                   ![S.el[1]] = [d |-> FlatBlocks(arrs.va), def |-> TRUE]]
+PermStep(s, S, p, q, D2) ==
+  Step([Rec("permute", s, s) EXCEPT !.p = p, !.q = q, !.noarr = NoArrays(S)],
+       [slots |-> slots, mem |-> PermMem(S, BlockArrs(S.m, S.n, S.bh, S.bw, D2, PermBP2(S, p, q)))],
+       LAMBDA w : /\ SAbs(w.mem, S) = D2
+                  /\ PermMat(SM(S), SN(S), D2, ExpandPerm(PermInv(p), S.bh), ExpandPerm(PermInv(q), S.bw)) = SAbs(mem, S))
 Permute ==
   /\ "permute" \in Ops /\ More
   /\ \E s \in 1..NS :
        /\ Usable(s) /\ slots[s].fmt \in {"csr", "bcsr"} /\ slots[s].m >= 1 /\ slots[s].n >= 1
-       /\ LET S == slots[s] IN
-          \E pq \in PermPairs(S.m, S.n) :
-            LET p == pq[1]  q == pq[2]
-                D == SAbs(mem, S)
-                D2 == PermMat(SM(S), SN(S), D, ExpandPerm(p, S.bh), ExpandPerm(q, S.bw))
-                BP2 == {e \in (1..S.m) \X (1..S.n) : <<p[e[1]], q[e[2]]>> \in BPat(mem, S)}
-                arrs == BlockArrs(S.m, S.n, S.bh, S.bw, D2, BP2)
-                nm == IF NoArrays(S) THEN mem
-                      ELSE [mem EXCEPT ![S.ix[1]] = [d |-> arrs.ci, def |-> TRUE],
-                                       ![S.ix[2]] = [d |-> arrs.rp, def |-> TRUE],
-                                       ![S.el[1]] = [d |-> FlatBlocks(arrs.va), def |-> TRUE]]
-            IN Step([Rec("permute", s, s) EXCEPT !.p = p, !.q = q, !.noarr = NoArrays(S)], [slots |-> slots, mem |-> nm],
-                    /\ SAbs(nm, S) = D2
-                    /\ PermMat(SM(S), SN(S), D2, ExpandPerm(PermInv(p), S.bh), ExpandPerm(PermInv(q), S.bw)) = D)
+       /\ \E pq \in PermPairs(slots[s].m, slots[s].n) : PermStep(s, slots[s], pq[1], pq[2], PermD2(slots[s], pq[1], pq[2]))
 
 \* ---- Layout: dst = MT(src.layout()) ------------------------------------------
 LayoutOp ==
@@ -285,9 +285,9 @@ LayoutOp ==
        /\ LET S == slots[src] IN
           \E ty \in {t \in TypesFor(S) : ITof(t) = ITof(S.ty)} :
             LET esz == IF S.el = <<>> THEN 0 ELSE Len(Dat(mem, S.el[1]))
-                w == Install(slots, mem, dst, Desc(S.fmt, ty, S.m, S.n, S.bh, S.bw, S.ue, <<Undef(esz)>>,
-                                                   [k \in 1..Len(S.ix) |-> Ref(S.ix[k])]))
-            IN Step([Rec("layout", src, dst) EXCEPT !.ty = ty], w, BPat(w.mem, w.slots[dst]) = BPat(mem, S))
+            IN Step([Rec("layout", src, dst) EXCEPT !.ty = ty],
+                    Install(slots, mem, dst, Desc(S.fmt, ty, S.m, S.n, S.bh, S.bw, S.ue, <<Undef(esz)>>, [k \in 1..Len(S.ix) |-> Ref(S.ix[k])])),
+                    LAMBDA w : BPat(w.mem, w.slots[dst]) = BPat(mem, S))
 
 \* ---- Graph: dst = MT(Adjacency::Graph of src's sparsity pattern) ------------------
 GraphOp ==
@@ -306,9 +306,8 @@ GraphOp ==
                                            ELSE LET d0 == DCSCR(ty, S.m, S.n, CSCROf(S.m, S.n, Z, BP, {e[1] : e \in BP}))
                                                 IN [d0 EXCEPT !.el = <<Undef(Cardinality(BP))>>]
                         [] f = "banded" -> DBand(ty, S.m, S.n, BandedOf(S.m, S.n, Z, {e[2] - e[1] + S.m - 1 : e \in BP}, 0))
-                w == Install(slots, mem, dst, de)
-            IN Step([Rec("graph", src, dst) EXCEPT !.fmt = f, !.ty = ty, !.grp = g.rp, !.gci = g.ci], w,
-                    BP \subseteq BPat(w.mem, w.slots[dst]) /\ (f # "banded" => BPat(w.mem, w.slots[dst]) = BP))
+            IN Step([Rec("graph", src, dst) EXCEPT !.fmt = f, !.ty = ty, !.grp = g.rp, !.gci = g.ci], Install(slots, mem, dst, de),
+                    LAMBDA w : BP \subseteq BPat(w.mem, w.slots[dst]) /\ (f # "banded" => BPat(w.mem, w.slots[dst]) = BP))
 
 \* ---- Copy: dst.copy(src, full) ----------------------------------------------------
 SameShape(A, B) ==
@@ -331,7 +330,7 @@ CopyOp ==
                        ELSE mem[c]]
               ns == IF full THEN [slots EXCEPT ![dst] = [T EXCEPT !.m = S.m, !.n = S.n, !.ue = S.ue]] ELSE slots
           IN Step([Rec("copy", src, dst) EXCEPT !.full = full], [slots |-> ns, mem |-> m1],
-                  SAbs(m1, ns[dst]) = SAbs(mem, S))
+                  LAMBDA w : SAbs(w.mem, w.slots[dst]) = SAbs(mem, S))
 
 \* ---- Format / Poke -------------------------------------------------------------
 FormatOp ==
@@ -341,7 +340,7 @@ FormatOp ==
        /\ LET S == slots[s]
               m1 == [c \in DOMAIN mem |-> IF \E k \in 1..Len(S.el) : S.el[k] = c
                                           THEN [d |-> [i \in 1..Len(mem[c].d) |-> v], def |-> TRUE] ELSE mem[c]]
-          IN Step([Rec("format", s, s) EXCEPT !.v = v], [slots |-> slots, mem |-> m1], BPat(m1, S) = BPat(mem, S))
+          IN Step([Rec("format", s, s) EXCEPT !.v = v], [slots |-> slots, mem |-> m1], LAMBDA w : BPat(w.mem, S) = BPat(mem, S))
 Poke ==
   /\ "poke" \in Ops /\ More
   /\ \E s \in 1..NS :
@@ -351,8 +350,8 @@ Poke ==
             LET m1 == [mem EXCEPT ![c] = [d |-> [mem[c].d EXCEPT ![k] = v], def |-> TRUE]] IN
             Step([Rec("poke", s, s) EXCEPT !.k = k - 1, !.v = v], [slots |-> slots, mem |-> m1],
                  \* a poke is seen by exactly the slots that hold the poked chunk
-                 \A t \in 1..NS : Occupied(t) /\ FullyDef(mem, slots[t]) /\ c \notin ChunksOf(slots[t])
-                                    => SAbs(m1, slots[t]) = SAbs(mem, slots[t]))
+                 LAMBDA w : \A t \in 1..NS : Occupied(t) /\ FullyDef(mem, slots[t]) /\ c \notin ChunksOf(slots[t])
+                                               => SAbs(w.mem, slots[t]) = SAbs(mem, slots[t]))
 
 \* ---- seeds -----------------------------------------------------------------------
 AllPats(m, n) == SUBSET ((1..m) \X (1..n))
@@ -378,11 +377,17 @@ SeedFam(f, ty) ==
                                    sh \in {<<0, 0>>, <<0, 2>>, <<2, 0>>, <<1, 1>>, <<1, 3>>, <<2, 2>>, <<2, 3>>, <<3, 2>>}}
                           \cup CsrSeeds(ty, 3, 5, {{}})
     [] f = "csr_33"    -> CsrSeeds(ty, 3, 3, AllPats(3, 3))
+    [] f = "csr_perm"  -> CsrSeeds(ty, 3, 2, {P \in AllPats(3, 2) : Cardinality(P) \in {2, 3}})
+                          \cup CsrSeeds(ty, 2, 3, {{<<1, 2>>, <<2, 1>>, <<2, 3>>}}) \cup CsrSeeds(ty, 3, 3, {{<<1, 2>>, <<1, 3>>, <<3, 1>>, <<3, 3>>}})
     [] f = "csr_44"    -> CsrSeeds(ty, 4, 4, {P \in AllPats(4, 4) : Cardinality(P) \in {5, 6}})
     [] f = "csr_pal"   -> CsrSeeds(ty, 1, 1, {{<<1, 1>>}}) \cup CsrSeeds(ty, 3, 5, {{}})
                           \cup CsrSeeds(ty, 2, 3, {{<<2, 1>>, <<2, 3>>}}) \cup CsrSeeds(ty, 3, 3, {(1..3) \X (1..3)})
                           \cup CsrSeeds(ty, 3, 3, {{<<2, 1>>, <<2, 2>>, <<2, 3>>}, Tri(3)})
                           \cup CsrSeeds(ty, 3, 2, {{<<1, 2>>, <<3, 1>>}})
+    [] f = "mini"      -> CsrSeeds(ty, 2, 3, {{<<2, 1>>, <<2, 3>>}}) \cup {DBand(ty, 3, 2, BandedOf(3, 2, DenseVals(3, 2), {1, 3}, PadVal))}
+                          \cup DenseSeeds(ty, 2, 3, {(1..2) \X (1..3)})
+                          \cup {DBCSR(ty, 2, 2, 2, 2, BCSROf(2, 2, 2, 2, DenseVals(4, 4), {<<1, 2>>, <<2, 1>>, <<2, 2>>}))}
+                          \cup {DCSCR(ty, 3, 3, CSCROf(3, 3, DenseVals(3, 3), {<<1, 1>>, <<3, 2>>, <<3, 3>>}, {1, 3}))}
     [] f = "cscr_small" -> UNION {CscrSeeds(ty, sh[1], sh[2], AllPats(sh[1], sh[2])) : sh \in {<<1, 1>>, <<2, 2>>, <<3, 2>>, <<2, 3>>}}
                            \cup CscrSeeds(ty, 3, 5, {{}})
     [] f = "cscr_33"   -> CscrSeeds(ty, 3, 3, {P \in AllPats(3, 3) : Cardinality(P) \in {2, 3, 4}})
@@ -401,7 +406,7 @@ SeedFam(f, ty) ==
     [] f = "bcsr_pal"  -> {DBCSR(ty, 2, 2, 2, 2, BCSROf(2, 2, 2, 2, DenseVals(4, 4), P)) : P \in {(1..2) \X (1..2), {<<2, 1>>}}}
                           \cup {DNone("bcsr", ty, 2, 3, 2, 2)}
                           \cup {DBCSR(ty, 2, 2, 2, 3, BCSROf(2, 2, 2, 3, DenseVals(4, 6), {<<1, 2>>, <<2, 1>>, <<2, 2>>}))}
-    [] f = "bcsr_perm" -> {DBCSR(ty, 3, 2, 2, 3, BCSROf(3, 2, 2, 3, DenseVals(6, 6), P)) : P \in {P \in AllPats(3, 2) : Cardinality(P) \in {2, 3, 4}}}
+    [] f = "bcsr_perm" -> {DBCSR(ty, 3, 2, 2, 3, BCSROf(3, 2, 2, 3, DenseVals(6, 6), P)) : P \in {P \in AllPats(3, 2) : Cardinality(P) = 3}}
 
 Init ==
   /\ \E f \in Seeds, ty \in SeedTypes : \E de \in SeedFam(f, ty) :
